@@ -187,7 +187,8 @@ def plan(pid: str, tier: str, seed: int) -> dict:
                                     ("quorumfail", "firstof", "quorumimpossible", "cycle2")]),
         )
     if pid == "C06":
-        progs = core + extra + [PR.by_name(n) for n in ("before2", "beforeafter", "afterfail", "siblingfail")]
+        progs = core + extra + [PR.by_name(n) for n in ("before2", "beforeafter", "afterfail", "siblingfail",
+                                                        "pausepar", "pausechain", "restartjump", "restartplain")]
         nseed = 10 if quick else 100
         return dict(
             progs=progs, props=["C06_Legal", "C06_CompletedIsFinal"],
@@ -197,11 +198,30 @@ def plan(pid: str, tier: str, seed: int) -> dict:
                                  for p in progs
                                  for pts in chunks(range(1, refs[p["name"]]["commits"] + 1, 3 if quick else 1), 24)]
                               + [{"kind": "inject", "prog": p, "what": "cancel", "at": at}
-                                 for p in core for at in chunks(range(1, refs[p["name"]]["steps"] + 1, 2), 12)],
+                                 for p in core for at in chunks(range(1, refs[p["name"]]["steps"] + 1, 2), 12)]
+                              + [   # operator actions: pause before every step then unpause (resumes delivered in any order),
+                                    # restart of a finished stage (the only legal resurrection besides a jump)
+                                 {"kind": "operator", "prog": p, "seeds": [seed * 1000 + at * 3 + v],
+                                  "opts": {"pause_at": at, "unpause_after": ua, "shuffle": sh}}
+                                 for p in progs if p["name"] in ("pausepar", "pausechain", "diamond", "failbranch")
+                                 for at in range(2, refs[p["name"]]["steps"] + 1, 1 if not quick else 2)
+                                 for v, (ua, sh) in enumerate([(1, False), (4, True), (9, True)])]
+                              + [{"kind": "operator", "prog": p, "seeds": [seed * 1000 + at],     # a straggling ResumeStage
+                                  "opts": {"pause_at": at, "unpause_after": 99, "shuffle": False, "hold": h}}
+                                 for p in progs if p["name"] in ("pausepar", "diamond", "failbranch")
+                                 for at in range(2, refs[p["name"]]["steps"] + 1) for h in [s["ref"] for s in p["stages"]][:3]]
+                              + [{"kind": "operator", "prog": p, "seeds": [seed * 1000 + i], "opts": {"restart": rs, "shuffle": i > 0}}
+                                 for p in progs if p["name"] in ("restartjump", "restartplain", "diamond", "termchain")
+                                 for rs in ("a", "b") for i in range(3)],
             mc=[("diamond", {"AnyOrder": "TRUE", "MaxEarly": 1}, {}), ("selfloop", {"AnyOrder": "TRUE", "MaxWithhold": 1}, {}),
                 ("failbranch", {"AnyOrder": "TRUE"}, {}), ("chain2", {"AnyOrder": "FALSE", "MaxCrashes": 1, "MaxCancels": 1}, {}),
-                ("cycle2", {"AnyOrder": "FALSE", "MaxCrashes": 1}, {})]
+                ("cycle2", {"AnyOrder": "FALSE", "MaxCrashes": 1}, {}),
+                ("pausepar", {"AnyOrder": "FALSE", "MaxPauses": 1}, {}), ("pausechain", {"AnyOrder": "TRUE", "MaxPauses": 1}, {}),
+                ("restartjump", {"AnyOrder": "TRUE", "MaxRestarts": 1}, {}),
+                ("chain2", {"AnyOrder": "TRUE", "MaxRestarts": 1, "MaxPauses": 1}, {"depth": 60})]
                + ([] if quick else [("diamond", {"AnyOrder": "TRUE", "MaxWithhold": 1, "MaxEarly": 1}, {}),
+                                    ("pausepar", {"AnyOrder": "TRUE", "MaxPauses": 1}, {}),
+                                    ("restartplain", {"AnyOrder": "FALSE", "MaxRestarts": 2, "MaxCrashes": 1}, {}),
                                     ("failbranch", {"AnyOrder": "TRUE", "MaxWithhold": 1, "MaxCancels": 1}, {"depth": 60})]),
         )
     if pid == "C09":
